@@ -262,6 +262,19 @@ func (d *dialA) clientCompression(rule string) {
 		}
 		if !conn.IsNil() {
 			nOff++
+			// the verdict "the server did not announce permessage-deflate" needs every line of the reply's
+			// extension header: a shortcut that looks at the first line only (Header.Get, a substring test)
+			// returns an uncompressed connection while the server, which announced the extension on a later
+			// line, compresses - and skips the refusal of a partial announcement
+			parsed := false
+			for i := range p.Events {
+				if ev := &p.Events[i]; callsStatic(ev, parseExt) && len(ev.Args) == 1 && isRespField(ev.Args[0], resp, "Header") {
+					parsed = true
+				}
+			}
+			if !parsed {
+				ok, why = false, "the connection returned at "+c.P.Pos(p.Ret.Pos())+" has no compression although parseExtensions(resp.Header) was not consulted on that path: an announcement on a header line the shortcut did not look at is ignored while the server compresses"
+			}
 			if token {
 				ok, why = false, "a connection is returned without compression although the reply announced permessage-deflate with both parameters"
 			}
